@@ -157,6 +157,12 @@ bool index_read(zckCtx *zck, char *data, size_t size, size_t max_length) {
             zck->index.first = new;
         prev = new;
     }
+    if((size_t)count != index_count || zck->index.first == NULL) {
+        set_fatal_error(zck, "Index has %llu chunks, but its chunk count is %llu",
+                        (long long unsigned) count,
+                        (long long unsigned) index_count);
+        return false;
+    }
     free(zck->index_string);
     zck->index_string = NULL;
     return true;
